@@ -33,6 +33,7 @@ def run(ctx: Context) -> None:
     ctx.analysed(v.cal)
     ctx.rule(r1_teardown)
     ctx.rule(c02.r2_aligned, v)
+    ctx.rule(no_swallowing, v)
     thorough = ctx.tier == "thorough"
     ctx.rule(run_product, ("C11", "C10"), True, plans(3, 2) if thorough else plans(2, 2), "with-faults")
 
@@ -89,3 +90,71 @@ def r1_teardown(ctx: Context) -> None:
             w = getattr(w, "_parent", None)
         ok = w is not None and any(x is v.loop_stmt for x in ast.walk(w))
         ctx.check(ok, "R1.teardown", "Calibrator.calibrate:loop-inside-session", "the whole batch loop lies inside the session", "the batch loop is outside the session context", v.cal, v.session[0])
+
+
+# ---------------------------------------------------------------------------------------------- faults are not swallowed below calibrate
+def _batch_path_functions(prog, root: FuncInfo) -> list[FuncInfo]:
+    """Repository functions reachable from calibrate through resolved calls (class-hierarchy resolution: every override of a dispatched method)."""
+    seen: dict[str, FuncInfo] = {root.qualname: root}
+    work = [root]
+    while work:
+        f = work.pop()
+        for c in calls_in(f.node, scope_only=False):
+            try:
+                ts = prog.resolve_call(f, c)
+            except AnalysisError:
+                continue
+            for t in ts:
+                if isinstance(t, FuncInfo) and t.qualname not in seen and not t.module.name.startswith("black_it.plot"):
+                    seen[t.qualname] = t
+                    work.append(t)
+    return list(seen.values())
+
+
+def no_swallowing(ctx: Context, v: CalibrateView) -> None:
+    """`calibrate() propagates that exception`: between the point where the model, the loss or a sampler raises and calibrate() there is no handler
+    that ends normally.  Decided on every function reachable from calibrate: a handler whose try-body calls repository code or a user-supplied
+    callable (directly - third-party-only bodies such as a linear solve with a documented fallback are not faults of the batch) must re-raise on
+    every path."""
+    from ..model import FuncInfo as FI
+    prog = ctx.prog
+    funcs = _batch_path_functions(prog, v.cal)
+    n_try = 0
+    for f in funcs:
+        ctx.functions.add(f.qualname)
+        tries = [t for t in ast.walk(f.node) if isinstance(t, ast.Try) and t.handlers]
+        if not tries:
+            continue
+        g = CFG(f.node, exc_edges=False)
+        for t in tries:
+            n_try += 1
+            # does the protected region run repository / user code?
+            carriers = []
+            for st in t.body:
+                for c in [x for x in ast.walk(st) if isinstance(x, ast.Call)]:
+                    try:
+                        ts = prog.resolve_call(f, c)
+                    except AnalysisError:
+                        ts = []
+                    if any(isinstance(x, FI) for x in ts):
+                        carriers.append(c)
+                    elif isinstance(c.func, ast.Attribute) and isinstance(c.func.value, ast.Name) and c.func.value.id == f.self_name and f.cls is not None \
+                            and prog.lookup_method(f.cls, c.func.attr) is None:
+                        carriers.append(c)      # self.<attribute>(...): a callable handed in by the user (model, moment calculator, ...)
+                    elif isinstance(c.func, ast.Call) and any(isinstance(x, ast.Attribute) and isinstance(x.value, ast.Name) and x.value.id == f.self_name for x in ast.walk(c.func)):
+                        carriers.append(c)      # delayed(self.model)(...)
+            if not carriers:
+                continue
+            for h in t.handlers:
+                hn = [x for x in g.live if x.kind == "handler" and x.ast is h]
+                if not hn:
+                    continue
+                p = g.path_avoiding(hn[0], {g.exit} | {x for x in g.live if x.kind in ("break", "continue", "return")}, {x for x in g.live if x.kind == "raise"},
+                                    labels={"next", "true", "false", "loop", "exhaust"})
+                typ = src(h.type) if h.type is not None else "everything"
+                key = f"{f.qualname.split(':')[1]}:handler:{typ}:{' '.join(src(carriers[0].func).split())[:40]}"
+                ctx.check(p is None, "R3.propagate", key, f"the `except {typ}` handler around `{src(carriers[0].func)[:40]}` re-raises",
+                          f"`except {typ}` in {f.qualname.split(':')[1]} ends normally although its try-body runs `{src(carriers[0])[:60]}`: an exception raised there by the model / the loss / "
+                          "a sampler is swallowed instead of being propagated by calibrate()", f, h, path_text(f, p))
+    ctx.ok("R3.propagate", "batch-path:scanned", f"{len(funcs)} functions reachable from calibrate scanned, {n_try} try statement(s)")
+    ctx.floor("R3", "functions reachable from calibrate", len(funcs), 25)
